@@ -23,13 +23,19 @@ def tyOfName (s : String) : Option Ty :=
   | "Number" => some .number
   | "String" => some .string
   | "List" => some .list
+  | "Map" => some .map
   | _ =>
     match s.toList with
     | 'K' :: rest => (String.ofList rest).toNat?.map Ty.obj
+    | 'k' :: 'e' :: 'y' :: 's' :: ':' :: rest =>
+      -- `keys:0,2` = the map pattern {k0 …, k2 …}
+      let ks := ((String.ofList rest).splitOn ",").filterMap String.toNat?
+      some (.keys ks)
     | _ => none
 
 def tyName : Ty → String
   | .null => "Null" | .bool => "Bool" | .number => "Number" | .string => "String" | .list => "List"
+  | .map => "Map" | .keys _ => "<pattern>"
   | .obj c => s!"K{c}"
 
 def opText : BOp → String
@@ -58,6 +64,7 @@ def dispTop : Val → String
   | .int i => s!"{i}"
   | .str s => strText s
   | .list r => s!"<list {r}>"
+  | .mp fs => "{" ++ ", ".intercalate (fs.map (fun f => s!"k{f.1}: {f.2}")) ++ "}"
   | .obj c => s!"k{c}"
 
 /-- element of a displayed container: strings are quoted -/
@@ -108,6 +115,10 @@ def faultOf : String → Option FaultKind
 mutual
 partial def parseE : Sexp → Option E
   | .list [.atom "lit", .atom v] => (litOf v).map E.lit
+  | .list [.atom "lit", .list (.atom "rec" :: fs)] =>
+    (fs.mapM (fun (f : Sexp) => match f with
+      | Sexp.list [k, i] => (do pure ((← k.nat?), (← i.int?)) : Option (Nat × Int))
+      | _ => none)).map (fun l => E.lit (.mp l))
   | .list [.atom "var", x] => x.nat?.map E.var
   | .list [.atom "gvar", x] => x.nat?.map E.gvar
   | .list [.atom "assign", x, e] => do pure (.assign (← x.nat?) (← parseE e))
